@@ -84,6 +84,7 @@ impl SimTimer {
         let deadline = w.vt.saturating_add(delay_to_deadline).min(VT_MAX);
         let (id, _label) = w.new_op("timer", Some(delay_to_deadline.saturating_add(late)));
         w.rec(Kind::TimerArm { id, arg, deadline_vt: deadline });
+        w.last_timer_id = id;
         drop(w);
         Pend::new(&self.w, id, ()).boxed()
     }
@@ -113,7 +114,29 @@ impl Timer for SimTimer {
                 None => d,
             });
         }
-        self.arm(TimerArg::Until(rec), delay.unwrap_or(0))
+        // a timer built on the library's own comparison: ask it now and when the wait is over
+        let cmp = |w: &Shared, phase: &str, t: PartialComplexTime, rec: TimeRec, id: u64| {
+            let (now_wall, now_mono) = {
+                let w = lock(w);
+                (w.wall_ns(), w.mono_off())
+            };
+            let now = ComplexTime { wall: conv::systime_from_ns(now_wall), mono: conv::instant_from_offset(now_mono) };
+            let lib = {
+                let _s = SutGuard::enter();
+                now.is_after_or_eq_any(t)
+            };
+            lock(w).rec(Kind::TimerCmp { id, phase: phase.to_string(), now_wall, now_mono, deadline: rec, lib });
+        };
+        let fut = self.arm(TimerArg::Until(rec.clone()), delay.unwrap_or(0));
+        let id = lock(&self.w).last_timer_id;
+        cmp(&self.w, "arm", t, rec.clone(), id);
+        let w2 = self.w.clone();
+        async move {
+            fut.await;
+            let _g = EnvGuard::enter();
+            cmp(&w2, "fire", t, rec, id);
+        }
+        .boxed()
     }
 
     fn wait_for(&mut self, duration: Duration) -> BoxFuture<'static, ()> {
